@@ -15,7 +15,7 @@ LEVEL = "exploration"
 RULE = ("random lattice arrays (multiples of 1/8, zeros, negatives) for the ten arithmetic commands, every int64/float64 assignment "
         "for n<=4 inputs (sampled for 5), input orders permuted, weights int/float/mixed; plus single-fault cases (shape, weight count, "
         "empty list); distinct by (command, n, dtype assignment, mask classes, param kinds, fault kind)")
-REQUIRED_COUNTERS = ["ref_postconditions", "order_checks", "fault_checks", "zero_divisor_cells"]
+REQUIRED_COUNTERS = ["ref_postconditions", "order_checks", "fault_checks", "zero_divisor_cells", "zero_weight_sum_cases"]
 ASSUMPTIONS = ["reference models in mpv/ref.py", "int64 overflow and NaN/inf inputs are never generated", "result dtype is not judged"]
 
 COMMUTATIVE = ("Sum", "Multiply", "Minimum", "Maximum", "Mean", "WeightedSum", "WeightedMean")
@@ -55,7 +55,14 @@ def _gen(rng, cmd, n, dts):
                 b["data"][i] = 0 if b["dtype"].startswith("int") else 0.0
     params = cmdgen.gen_params(rng, cmd, n)
     if "Weights" in params and rng.random() < 0.15:
-        params["Weights"] = [rng.choice([1, -1, 2, -2.5]) for _ in range(n)]   # may sum to zero: don't-care then
+        params["Weights"] = [rng.choice([1, -1, 2, -2.5]) for _ in range(n)]
+    if cmd == "WeightedMean" and n >= 2 and rng.random() < 0.15:
+        # weights that sum to exactly zero: the division by zero must give missing cells, not an error
+        params["Weights"] = rng.choice([[1, -1], [0, 0], [0.5, -0.25, -0.25], [2, -2.0], [0.0, 0]])[:n] if n <= 3 else [1, -1] + [0] * (n - 2)
+        if len(params["Weights"]) < n:
+            params["Weights"] = params["Weights"] + [0] * (n - len(params["Weights"]))
+        if sum(params["Weights"]) != 0:
+            params["Weights"] = [1, -1] + [0] * (n - 2)
     order = list(range(n))
     rng.shuffle(order)
     return {"kind": "value", "cmd": cmd, "inputs": ins, "params": params, "order": order}
@@ -119,6 +126,8 @@ def run_case(ctx, case):
         want = None
     if want is not None:
         ctx.count("ref_postconditions")
+        if cmd == "WeightedMean" and sum(params["Weights"]) == 0:
+            ctx.count("zero_weight_sum_cases")
         if cmd == "ADividedByB":
             ctx.count("zero_divisor_cells", sum(1 for a, b in zip(fcols[0], fcols[1]) if a is not None and b is not None and b == 0))
         if not out.ok:
